@@ -283,10 +283,11 @@ def gen_plan(rng, tier, idx):
         if cand:
             fid = rng.choice(cand)
             name = rng.choice(["laplace", "laplace", "gradient", "gradient_squared"])
+            keep = rng.random() < 0.7  # the same conditions object for every use of a slot, or new conditions each time
 
             def lop(slot):
                 return {"op": "linked_op", "f": fid, "name": name, "slot": slot, "backend": rng.choice(["numba", "numba", "scipy"]),
-                        "via": rng.choice(["make_operator", "make_operator", "ghost"])}
+                        "via": rng.choice(["make_operator", "make_operator", "ghost"]), "keep": keep}
 
             motif = [lop(0), lop(1), {"op": "set_linked", "slot": rng.randrange(2), "value": rng.choice([5.0, -2.0, 0.0])}, lop(1), lop(0)]
             if rng.random() < 0.3:
